@@ -56,6 +56,11 @@ func (n *MNode) Path() string {
 	if !n.Alive {
 		return fmt.Sprintf("<dead #%d %s>", n.ID, n.Name)
 	}
+	for x, k := n, 0; x.Parent != x; x, k = x.Parent, k+1 {
+		if k > 10000 {
+			return fmt.Sprintf("<cycle at #%d %s>", n.ID, n.Name) // only on a broken reference model
+		}
+	}
 	p := n.Parent.Path()
 	if p == "/" {
 		return "/" + n.Name
